@@ -30,7 +30,7 @@ import (
 )
 
 type serverApp struct {
-	Root                  string           `help:"Root directory with games." type:"existingdir" default:"." env:"PS3NETSRV_ROOT"`
+	Root                  string           `help:"Root directory with games." type:"path" default:"." env:"PS3NETSRV_ROOT"`
 	ListenAddr            string           `help:"Main server listen address." default:"0.0.0.0:38008" env:"PS3NETSRV_LISTEN_ADDR"`
 	Debug                 bool             `help:"Enable debug log messages." env:"PS3NETSRV_DEBUG"`
 	JSONLog               bool             `help:"Output log messages in json format." env:"PS3NETSRV_JSON_LOG"`
@@ -208,7 +208,27 @@ func (sapp *serverApp) setupRuntime() {
 	}
 }
 
+// checkRoot ensures that root is an existing directory.
+// This can't be left to "existingdir" flag type: it doesn't check (and even drops)
+// value coming from configuration file when flag has default value.
+func (sapp *serverApp) checkRoot() error {
+	stat, err := os.Stat(sapp.Root)
+	if err != nil {
+		return fmt.Errorf("root directory: %w", err)
+	}
+
+	if !stat.IsDir() {
+		return fmt.Errorf("root %q is not a directory", sapp.Root)
+	}
+
+	return nil
+}
+
 func (sapp *serverApp) Run() error {
+	if err := sapp.checkRoot(); err != nil {
+		return err
+	}
+
 	sapp.setupLogger()
 	sapp.setupRuntime()
 	sapp.warnRoot()
